@@ -419,8 +419,9 @@ func (db *DB) FirstOrCreate(dest interface{}, conds ...interface{}) (tx *DB) {
 
 		// the update is for the record that was found: its key joins the lookup conditions as a whole, also when
 		// they hold an Or (ungrouped, the key would only bind to the last Or group and other rows were written)
+		// (a lone Or condition too: the key must not become one more alternative next to it)
 		if c, ok := tx.Statement.Clauses["WHERE"]; ok {
-			if where, ok := c.Expression.(clause.Where); ok && len(where.Exprs) > 1 {
+			if where, ok := c.Expression.(clause.Where); ok && len(where.Exprs) > 0 {
 				c.Expression = clause.Where{Exprs: []clause.Expression{clause.And(where.Exprs...)}}
 				tx.Statement.Clauses["WHERE"] = c
 			}
